@@ -2657,9 +2657,7 @@ class Circuit(AbstractCircuit):
         """Creates a new tagged `Circuit` with `self.tags` and `new_tags` combined."""
         if not new_tags:
             return self
-        new_circuit = Circuit(tags=self.tags + new_tags)
-        new_circuit._moments[:] = self._moments
-        return new_circuit
+        return Circuit._from_moments(self._moments, tags=self.tags + new_tags)
 
     def with_noise(self, noise: cirq.NOISE_MODEL_LIKE) -> cirq.Circuit:
         """Make a noisy version of the circuit.
